@@ -644,6 +644,9 @@ func run(s *core.Shard) {
 		}
 	}
 
+	// ---- part 1b: concurrent loads of documents with never-seen names -----------------
+	runFreshNames(s, next)
+
 	// ---- part 1: concurrent loads ----------------------------------------------
 	rng := s.Rand("groups")
 	groups := s.Pick(640, 12000)
